@@ -1,6 +1,7 @@
 from operator import xor
 
 import numpy as np
+from pb_bss import _verif
 import scipy.special
 from dataclasses import dataclass, field
 from pb_bss.distribution.complex_angular_central_gaussian import (
@@ -276,6 +277,11 @@ class CACGMMTrainer:
                 eigenvalue_floor=eigenvalue_floor,
                 weight_constant_axis=weight_constant_axis,
             )
+            if _verif.ENABLED:
+                _verif.step(
+                    self, iteration, model, affiliation,
+                    quadratic_form=quadratic_form,
+                )
 
         return model
 
